@@ -35,12 +35,15 @@ fn green_sum(node: &GreenNode, problems: &mut Vec<String>) -> u32 {
     sum
 }
 
-fn red_walk(node: &SyntaxNode, text: &str, pos: &mut u32, problems: &mut Vec<String>, tokens: &mut u64) {
+fn red_walk(node: &SyntaxNode, text: &str, pos: &mut u32, problems: &mut Vec<String>, tokens: &mut u64) -> Option<(u32, u32)> {
     if node.offset().value() != *pos {
         problems.push(format!("node-offset: {:?} starts at {} expected {}", node.syntax_kind(), node.offset().value(), *pos));
     }
     let full = node.full_span();
     let start = *pos;
+    // extent of the non-trivia tokens below this node
+    let mut first: Option<u32> = None;
+    let mut last: Option<u32> = None;
     for el in node.children_with_tokens() {
         match el {
             SyntaxElement::Token(t) => {
@@ -56,9 +59,22 @@ fn red_walk(node: &SyntaxNode, text: &str, pos: &mut u32, problems: &mut Vec<Str
                 } else if &text[st..end] != t.text() {
                     problems.push(format!("token-text: {:?} at {}", t.syntax_kind(), st));
                 }
+                if !is_ws(t.syntax_kind()) && !is_comment(t.syntax_kind()) {
+                    if first.is_none() {
+                        first = Some(sp.start());
+                    }
+                    last = Some(sp.end());
+                }
                 *pos = sp.end();
             }
-            SyntaxElement::Node(n) => red_walk(&n, text, pos, problems, tokens),
+            SyntaxElement::Node(n) => {
+                if let Some((f, l)) = red_walk(&n, text, pos, problems, tokens) {
+                    if first.is_none() {
+                        first = Some(f);
+                    }
+                    last = Some(l);
+                }
+            }
         }
     }
     if full.start() != start || full.end() != *pos {
@@ -67,6 +83,17 @@ fn red_walk(node: &SyntaxNode, text: &str, pos: &mut u32, problems: &mut Vec<Str
     let nt = node.span();
     if !(full.start() <= nt.start() && nt.end() <= full.end()) {
         problems.push(format!("node-nontrivia-span: {:?} {} outside {}", node.syntax_kind(), nt, full));
+    } else if !text.is_char_boundary(nt.start() as usize) || !text.is_char_boundary(nt.end() as usize) {
+        problems.push(format!("node-nontrivia-span-inside-character: {:?} {}", node.syntax_kind(), nt));
+    } else if let (Some(f), Some(l)) = (first, last) {
+        // the span diagnostics and the language server use: from the first to the last non-trivia token
+        if nt.start() != f || nt.end() != l {
+            problems.push(format!("node-nontrivia-span-extent: {:?} span {} but its code tokens cover {}..{}", node.syntax_kind(), nt, f, l));
+        }
+    }
+    match (first, last) {
+        (Some(f), Some(l)) => Some((f, l)),
+        _ => None,
     }
 }
 
